@@ -169,6 +169,23 @@ def writeLink (ndx : List (Nat × Nat)) (d : List Int) (k : Nat) (v : Int) : Lis
 def setOpenLinks (ndx : List (Nat × Nat)) (status : Nat → Nat) (d : List Int) (lst : List Nat) : List Int :=
   lst.foldl (fun d l => if status l ≠ 0 then writeLink ndx d l 1 else d) d
 
+/-- `_node_pairs_with_multiple_links` as built by the last loop of `_initialize_internal_graph`:
+keys of `n_links` in insertion order with count > 1, skipping a key whose reverse is already present;
+the list = links of `get_links_for_node(from)` whose other end is `to` -/
+def multiTable (net : Net) : List ((Nat × Nat) × List Nat) :=
+  let nl := countLinks net
+  (nl.map (·.1)).foldl (fun (acc : List ((Nat × Nat) × List Nat)) key =>
+      let (f, t) := key
+      if dictGet nl (f, t) > 1 then
+        if acc.any (·.1 == (t, f)) then acc
+        else acc ++ [((f, t), (net.linksOf f).filter fun k => (net.linkEnds k).1 == t || (net.linkEnds k).2 == t)]
+      else acc) []
+
+/-- the data writes of one new entry: `graph[from, to] = 0; graph[to, from] = 0`, then 1 for every non-closed link of the list -/
+def initStep (g0 : Csr) (ndx : List (Nat × Nat)) (status : Nat → Nat) (d : List Int) (e : (Nat × Nat) × List Nat) : List Int :=
+  let d := setOpt (setOpt d (getCsrDataIndex g0 e.1.1 e.1.2) 0) (getCsrDataIndex g0 e.1.2 e.1.1) 0
+  setOpenLinks ndx status d e.2
+
 /-- `_initialize_internal_graph` (the repaired code: `shape=(num_nodes, num_nodes)`) -/
 def initGraph (net : Net) (user internal : List Nat) : Outcome × Sim :=
   let st : Nat → Nat := fun k => statusOf (net.valve.getD k false) (user.getD k 1) (internal.getD k 2)
@@ -181,17 +198,10 @@ def initGraph (net : Net) (user internal : List Nat) : Outcome × Sim :=
   let data1 := net.initOrder.foldl (fun d k =>
       let p := ndx.getD k (0, 0); addAt (addAt d p.1 (openVal (st k))) p.2 (openVal (st k))) g0.data
   let nconn := (List.range net.n).map fun u => g0.indptr.getD (u + 1) 0 - g0.indptr.getD u 0
-  let nl := countLinks net
-  -- the pass over node pairs with multiple links
-  let (data2, multi) := (nl.map (·.1)).foldl (fun (acc : List Int × List ((Nat × Nat) × List Nat)) key =>
-      let (f, t) := key
-      if dictGet nl (f, t) > 1 then
-        if acc.2.any (·.1 == (t, f)) then acc
-        else
-          let d := setOpt (setOpt acc.1 (getCsrDataIndex g0 f t) 0) (getCsrDataIndex g0 t f) 0
-          let lst := (net.linksOf f).filter fun k => (net.linkEnds k).1 == t || (net.linkEnds k).2 == t
-          (setOpenLinks ndx st d lst, acc.2 ++ [((f, t), lst)])
-      else acc) (data1, [])
+  -- the pass over node pairs with multiple links (the table first, then the data writes of each new entry;
+  -- the source does both in one loop, each iteration's writes depend on its own entry only)
+  let multi := multiTable net
+  let data2 := multi.foldl (initStep g0 ndx st) data1
   (out,
    { net := net, user := user, internal := internal,
      g := { g0 with data := data2, nconn := nconn }, ndx := ndx, multi := multi,
